@@ -23,7 +23,7 @@ RULE = ("case = (model type, start parameters, maturity, target Black-Scholes vo
 ASSUMPTIONS = ["calibration problems are pre-screened by the harness (COS prices at the interval ends bracket the target)",
                "repricing tolerance 1e-6 x spot (brentq xtol 2e-12 on the parameter)"]
 REQUIRED_COUNTERS = ["default_calibrations", "parameter_calibrations", "repricing_checks", "input_untouched_checks", "history_rebuilds", "short_maturity_calibrations",
-                     "constraint_probes", "calibrations_without_solution_refused"]
+                     "constraint_probes", "calibrations_without_solution_refused", "solutions_near_the_lower_end"]
 MIN_NONTRIVIAL = {"quick": 40, "thorough": 500}
 THOROUGH_ROUNDS = 20      # the thorough tier runs the generators this many times (different seeds)
 REPRICE_TOL = 1e-8        # relative to the spot: the calibrated value reprices the target within the root-finder tolerance (see DESIGN)
@@ -38,6 +38,9 @@ def gen_cases(tier, seed):
     # maturities of days to weeks (jump-diffusions: the density is smooth, the default COS expansion still converges)
     cases += [{"kind": "calib", "seed": int(rng.integers(2**31)), "family": ["HEM", "MERTON"][i % 2], "mode": ["default", "atm", "generic"][i % 3], "short": True}
               for i in range(8 if tier == "quick" else 60)]
+    # solutions close to the lower end of the search interval (where the price hardly moves with the parameter: many root-finder iterations)
+    cases += [{"kind": "calib", "seed": int(rng.integers(2**31)), "family": ["MERTON", "HEM", "MERTON", "VG"][i % 4], "mode": ["default", "atm", "generic"][i % 3], "low": True}
+              for i in range(9 if tier == "quick" else 90)]
     # no solution inside the given interval (the root lies beyond its upper end): the call raises, or returns an admissible value that reprices
     cases += [{"kind": "calib", "seed": int(rng.integers(2**31)), "family": FAMS[i % 4], "mode": "generic", "beyond": True} for i in range(8 if tier == "quick" else 80)]
     cases += [{"kind": "history", "seed": int(rng.integers(2**31)), "family": (FAMS + ["BS"])[i % 5]} for i in range(n)]
@@ -73,6 +76,16 @@ def _same_snapshot(a, b):
         if not np.array_equal(np.asarray(a["params"][k], dtype=float), np.asarray(b["params"][k], dtype=float), equal_nan=True):
             return False
     return all(a[k] == b[k] for k in ("a", "sigma", "rep", "omega", "spot", "r", "d"))
+
+
+def _low_target(rng, fam, a_, b_):
+    """a parameter value close to the lower end of the default interval, where the price is flat in the parameter (mean jump size of
+    Merton near 0: the price moves with its square; diffusion of HEM far below the volatility of its jumps)"""
+    if fam == "MERTON":
+        return float(10.0 ** rng.uniform(-2.6, -1.5))
+    if fam == "HEM":
+        return float(rng.uniform(0.004, 0.03))
+    return float(a_ + (b_ - a_) * rng.uniform(0.01, 0.08))
 
 
 def _calib(case, R):
@@ -125,6 +138,10 @@ def _calib(case, R):
         ptype = PayoffType.PUT if rng.random() < 0.5 else PayoffType.CALL
         a_, b_ = inner
         target_value = float(rng.uniform(a_ + 0.1 * (b_ - a_), b_ - 0.1 * (b_ - a_)))
+        if case.get("low"):
+            target_value = _low_target(rng, fam, a_, b_)
+            a_, b_ = (lo if lo > 0 else 1e-9), hi          # searched over the whole default interval
+            R.hit("solutions_near_the_lower_end")
         if case.get("beyond"):
             # the user's interval stops short of the value that reprices the target
             target_value = float(rng.uniform(a_ + 0.55 * (b_ - a_), b_ - 0.05 * (b_ - a_)))
@@ -169,6 +186,9 @@ def _calib(case, R):
     # ATM call against a Black-Scholes volatility: choose the volatility from a parameter value inside the interval
     a_, b_ = inner
     target_value = float(rng.uniform(a_ + 0.15 * (b_ - a_), b_ - 0.15 * (b_ - a_)))
+    if case.get("low"):
+        target_value = _low_target(rng, fam, a_, b_)
+        R.hit("solutions_near_the_lower_end")
     atm = price_with(target_value, S)
     bs = W.build_model({"family": "BS", "params": {"sigma": 0.2}, "exp": True, "spot": S, "r": spec["r"], "d": spec["d"]})
     from scipy.optimize import brentq
